@@ -55,7 +55,20 @@ def witness_permsym_cond(T, rng):
     return ufl.conditional(ufl.lt(eps[i, j] * eps[i, j], 3), T.f[0], T.f[1]), ()
 
 
+def witness_abs_free_index(T, rng):
+    import ufl
+    i = ufl.Index()
+    return ufl.div(ufl.as_vector(abs(T.v[0][i]), i)), ()
+
+
+def witness_abs_free_index_dx(T, rng):
+    import ufl
+    i = ufl.Index()
+    return abs(T.v[0][i]).dx(0) * T.v[1][i], ()
+
+
 WITNESSES = {
+    "abs-derivative-free-index": [witness_abs_free_index, witness_abs_free_index_dx],
     "conditional-component": [witness_conditional, witness_conditional_grad],
     "permutation-symbol-object": [witness_permsym, witness_permsym_cond],
 }
@@ -99,7 +112,7 @@ def classify(c, live):
             return "ok", ""
         if not isinstance(real.value, (int, Fr)) and H.fragile_conditions(c.e, c.env):
             return "inconclusive", "float result with a comparison decided by < 1e-6"
-        if any(type(n).__name__ == "Grad" for n in H.nodes(c.f)) and H.nonsmooth_point(c.e, c.env):
+        if H.differentiated_kinds(c.e) and H.nonsmooth_point(c.e, c.env):
             return "inconclusive", "derivative taken at a kink of abs/min/max"
         return "VIOLATION", "wrong value"
     # raised / returned an object
@@ -113,7 +126,7 @@ def classify(c, live):
 def coq_expected(c, verdict, live, repaired):
     """The right-hand side of the generated Example, or 'skip'.  `repaired`: finding ids whose method has
     the repaired body in this tree (the model is then run with cfix / efix = true)."""
-    if not H.coq_eligible(c.f) or verdict in ("VIOLATION", "inconclusive"):
+    if not H.coq_eligible(c.f) or verdict in ("VIOLATION", "inconclusive") or c.expand_error:
         return "skip"
     if c.known - live - repaired:
         return "skip"      # neither the defective nor the repaired body: T1 reports that method
